@@ -138,7 +138,18 @@ func main() {
 				vlib.Bytes(inner), vlib.Bool(ok)), map[string]interface{}{"op": "licence v3"}, "licence/v3", true)
 		}
 	}
-	// 2. keys under every cipher
+	// 2. keys under every cipher.  Three instances of the cipher of one licence are in play, as in a
+	// running broker: a fresh one encrypts (first use after parsing), a long-lived one that has seen
+	// other keys decrypts, and a third, warmed-up one measures the keystream for the model.
+	shared := map[license.License]license.Cipher{}
+	ref := map[license.License]license.Cipher{}
+	for _, l := range lics {
+		shared[l], _ = l.Cipher()
+		ref[l], _ = l.Cipher()
+		warm := security.Key(vlib.RandBytes(r, 24))
+		warm[0], warm[1] = 1, 1
+		ref[l].EncryptKey(warm)
+	}
 	for i := 0; i < 600*cfg.Mult; i++ {
 		l := lics[r.Intn(len(lics))]
 		c, err := l.Cipher()
@@ -147,7 +158,11 @@ func main() {
 		}
 		k := randKey()
 		s, _ := c.EncryptKey(k)
-		sh.Add(vlib.App("CKey", cipherTerm(l, c, k[0], k[1]), vlib.Bytes(k), vlib.Str(s), decTerm(c, []byte(s))),
+		dec := shared[l]
+		if r.Intn(4) == 0 {
+			dec = c
+		}
+		sh.Add(vlib.App("CKey", cipherTerm(l, ref[l], k[0], k[1]), vlib.Bytes(k), vlib.Str(s), decTerm(dec, []byte(s))),
 			map[string]interface{}{"op": "encrypt+decrypt", "licence": fmt.Sprintf("%T", l), "key": []byte(k)}, fmt.Sprintf("key/%T", l), true)
 	}
 	// 3. candidate key strings: wrong lengths, characters outside the alphabet, mutated valid strings
